@@ -83,6 +83,9 @@ def run(check, prog):
     # Mie series relative to the polarisation direction (rule shared with C05)
     from . import c05
     c05.mielens_rotation(check, prog, Canon(trig_expand=True))
+    # ... and the compiled far-field routines receive (theta, phi) in the slots
+    # their Fortran headers declare
+    c05.f2py_coordinate_roles(check, prog)
 
 
 def layered_radii(check, prog, canon):
